@@ -215,9 +215,61 @@ def op_sequences(nbox, nops, need_find=True):
     return out
 
 
+# ------------------------------------------------------------------------------- H4 bulk insertion
+EXT_KINDS = ["list", "tuple", "generator", "iter", "map"]
+
+
+def _extend_check(sel):
+    """Plane.extend with every kind of iterable (also one-shot ones), before / after single adds: membership, length, insertion order, find and remove agree with the list model"""
+    import pdfminer.utils as u
+    kind, pre, post = EXT_KINDS[sel["kind"]], sel["pre"], sel["post"]
+    plane = u.Plane((0, 0, 100, 100), gridsize=50)
+    boxes = [Box("o%d" % i, (10 * i, 10 * i, 10 * i + 15, 10 * i + 15)) for i in range(6)]
+    live = []
+    for b in boxes[:pre]:
+        plane.add(b); live.append(b)
+    bulk = boxes[pre:pre + 3]
+    arg = {"list": list(bulk), "tuple": tuple(bulk), "generator": (b for b in bulk), "iter": iter(bulk), "map": map(lambda b: b, bulk)}[kind]
+    plane.extend(arg)
+    live += bulk
+    for b in boxes[pre + 3:pre + 3 + post]:
+        plane.add(b); live.append(b)
+    desc = "%d add(s), extend(%s of 3 objects), %d add(s)" % (pre, kind, post)
+    if list(plane) != live:
+        return "%s: iteration gives %r, inserted were %r" % (desc, list(plane), live)
+    if len(plane) != len(live) or not all(b in plane for b in live):
+        return "%s: len() = %d, membership %r for %d live objects" % (desc, len(plane), [b in plane for b in live], len(live))
+    found = list(plane.find((0, 0, 100, 100)))
+    if sorted(map(repr, found)) != sorted(map(repr, live)):
+        return "%s: find(everything) returns %r" % (desc, found)
+    try:
+        plane.remove(bulk[1])
+    except Exception as e:
+        return "%s: remove() of an object inserted by extend raised %s: %s" % (desc, type(e).__name__, e)
+    live.remove(bulk[1])
+    if list(plane) != live or bulk[1] in list(plane.find((0, 0, 100, 100))):
+        return "%s: after remove() iteration gives %r" % (desc, list(plane))
+    return None
+
+
+def h4_extend(timeout=100, **kw):
+    import pdfminer.utils as u
+
+    def fn(ex):
+        sel = {"kind": ex.choice(len(EXT_KINDS), "kind"), "pre": ex.choice(3, "pre"), "post": ex.choice(2, "post")}
+        r = _extend_check(sel)
+        ex.require(r is None, r or "", ext=sel)
+
+    def conc(m, info):
+        return {"ext": info["ext"]}
+    return core.run_symx("H4_extend", fn, [u.Plane.extend, u.Plane.add, u.Plane.remove, u.Plane.find, u.Plane.__iter__], {"iterables": EXT_KINDS, "adds before": "0..2", "adds after": "0..1"}, timeout, concretize=conc)
+
+
 # ------------------------------------------------------------------------------- replay (real code, no shims)
 def replay(harness, inp):
     import pdfminer.utils as u
+    if "ext" in inp:
+        return _extend_check(inp["ext"])
     from fractions import Fraction as F
     if harness == "H1_laws":
         v = inp["vals"]
@@ -286,7 +338,7 @@ def _split(seqs, n):
 
 
 def jobs(tier):
-    J = [Job("H1_laws", "h1_laws", {}, 60), Job("H2_rect:far", "h2_rect", {"far": True}, 200, "H2_rect"), Job("H2_rect", "h2_rect", {}, 120)]
+    J = [Job("H4_extend", "h4_extend", {}, 100), Job("H1_laws", "h1_laws", {}, 60), Job("H2_rect:far", "h2_rect", {"far": True}, 200, "H2_rect"), Job("H2_rect", "h2_rect", {}, 120)]
     if tier == "quick":
         s3 = op_sequences(2, 3)
         for c in ("pos", "neg"):
